@@ -10,5 +10,7 @@ int main(int argc, char** argv)
   FEAT::Runtime::ScopeGuard guard(argc, argv);
   std::vector<Target> tg;
   tg.push_back({"global", [](Tape& t, Ctx& c) { target<G_GLOBAL, double, GlobalBE>(t, c, {K_PIPEPCG, K_GROPPPCG, K_RBICGSTAB, K_PCG}, {3, 3, 3, 1}, maxn()); }, 96, 2, 60000});
+  // thorough tier: same decoder, systems up to n = 120
+  tg.push_back({"global_big", [](Tape& t, Ctx& c) { target<G_GLOBAL, double, GlobalBE>(t, c, {K_PIPEPCG, K_GROPPPCG, K_RBICGSTAB, K_PCG}, {3, 3, 3, 1}, 120); }, 96, 3, 120000});
   return main_impl(argc, argv, tg);
 }
